@@ -970,6 +970,7 @@ theorem inv_step {cfg : Cfg} (wf : WF cfg) {s : St} (h : Inv cfg s) (e : Ev) :
     cases b <;> simp
   | setPushListener b =>
     exact h.same rfl rfl rfl rfl rfl h.1.live rfl rfl rfl rfl (fun x hx => (h.1.closed x hx).2) rfl rfl
+  | tasksCancelled => exact h
   | connectNext =>
     exact h.same rfl rfl rfl rfl rfl h.1.live rfl rfl rfl rfl (fun x hx => (h.1.closed x hx).2) rfl rfl
   | pushStartFault =>
@@ -1166,6 +1167,7 @@ theorem step_grows (cfg : Cfg) (s : St) (e : Ev) : Grows s (step cfg s e).1 := b
   | setListener b => exact ⟨List.prefix_refl _, List.prefix_refl _, id⟩
   | setPushListener b => exact ⟨List.prefix_refl _, List.prefix_refl _, id⟩
   | connectNext => exact ⟨List.prefix_refl _, List.prefix_refl _, id⟩
+  | tasksCancelled => exact Grows.refl s
   | pushStartFault => simp only [step]; split <;> exact Grows.refl s
   | pushStart => simp only [step]; split <;> exact Grows.refl s
   | pushStop => simp only [step]; split <;> exact Grows.refl s
@@ -1206,6 +1208,7 @@ theorem closed_of_closing {cfg : Cfg} (wf : WF cfg) {s : St} (h : Inv cfg s) (e 
   | setListener b => simp [Ev.isClosing] at he
   | setPushListener b => simp [Ev.isClosing] at he
   | connectNext => simp [Ev.isClosing] at he
+  | tasksCancelled => simp [Ev.isClosing] at he
   | pushStartFault => simp [Ev.isClosing] at he
   | pushStart => simp [Ev.isClosing] at he
   | pushStop => simp [Ev.isClosing] at he
@@ -1233,6 +1236,7 @@ theorem step_closed_ext {cfg : Cfg} (wf : WF cfg) (s : St) (x : Nat) (h : Inv cf
   | setListener b => exact ⟨hp, Nat.le_refl _⟩
   | setPushListener b => exact ⟨hp, Nat.le_refl _⟩
   | connectNext => exact ⟨hp, Nat.le_refl _⟩
+  | tasksCancelled => exact ⟨hp, Nat.le_refl _⟩
   | pushStartFault => simp only [step]; split <;> exact ⟨hp, Nat.le_refl _⟩
   | pushStart => simp only [step]; split <;> exact ⟨hp, Nat.le_refl _⟩
   | pushStop => simp only [step]; split <;> exact ⟨hp, Nat.le_refl _⟩
